@@ -5,6 +5,8 @@ import common
 from common import Broken, sh
 
 ASSUMPTIONS = [
+    "process restarts (byte copy of the data directory + fresh application: after the Commit of random blocks and of EVERY verdict block, "
+    "and between EndBlock and Commit with the block replayed) do not change the model state: the model's state is the committed store",
     "a transaction that returns a non-zero code leaves the state unchanged (C06); the model's handlers are no-ops on failure",
     "the static part of stakeTx/unstakeTx/withdrawTx.Validate (signatures by the stake account and the validator key, fee currency and "
     "price, well-formed addresses and public key, validator address = address of the consensus key (9246c8d)) holds for every generated "
@@ -185,6 +187,8 @@ def run(ctx):
                 "evaluations = model steps compared, distinct = staking transactions delivered",
         "traces_validated_against_impl": rep["cases"], "histories": rep["cases"], "corpus_replays": ncorpus, "histories_without_any_trigger": clean_cases,
         "crashed_histories": rep.get("crashed_histories") or [],
+        "restarts": rep.get("restarts"), "restarts_between_endblock_and_commit": rep.get("restarts_between_endblock_and_commit"),
+        "restarts_after_verdict_block": rep.get("restarts_after_verdict_block"),
         "kind_histogram": rep["kind_histogram"], "outcome_histogram": rep["outcome_histogram"],
         "amount_class_histogram": rep["amount_class_histogram"], "verdicts": rep["verdicts"],
         "model_mismatches": len(mm), "model_mismatches_outside_known_triggers": len(bad),
